@@ -519,7 +519,30 @@ std::string accessor_sig(NifFile& nif) {
 // API-built models (names starting with '@'), saved and loaded again so that they are files like any other:
 //   @dup     : Scene Root -> { X, A, shape }, A -> { X }          two nodes of one name at different depths
 //   @unnamed : Scene Root -> { "", A, shape }, A -> { "" }        the same with two unnamed nodes
+//   @dupbone : Scene Root -> { BoneA, BoneB, skinned shape whose bone list is BoneA, BoneB, BoneA }
 int build_api_model(NifFile& nif, const std::string& name) {
+	if (name == "@dupbone") {
+		nif.Create(NiVersion::getSSE());
+		MatTransform id;
+		nif.AddNode("BoneA", id);
+		nif.AddNode("BoneB", id);
+		std::vector<Vector3> v{Vector3(0, 0, 0), Vector3(1, 0, 0), Vector3(0, 1, 0)};
+		std::vector<Triangle> t{Triangle(0, 1, 2)};
+		std::vector<Vector2> uv{Vector2(0, 0), Vector2(1, 0), Vector2(0, 1)};
+		auto sh = nif.CreateShapeFromData("S", &v, &t, &uv);
+		nif.CreateSkinning(sh);
+		int a = static_cast<int>(nif.GetBlockID(nif.FindBlockByName<NiNode>("BoneA")));
+		int b = static_cast<int>(nif.GetBlockID(nif.FindBlockByName<NiNode>("BoneB")));
+		std::vector<int> ids{a, b, a};
+		nif.SetShapeBoneIDList(sh, ids);
+		NifSaveOptions so;
+		so.optimize = false;
+		so.sortBlocks = false;
+		std::stringstream ss;
+		nif.Save(ss, so);
+		ss.seekg(0);
+		return nif.Load(ss);
+	}
 	if (name != "@dup" && name != "@unnamed")
 		return 99;
 	std::string x = name == "@dup" ? "X" : "";
@@ -736,16 +759,17 @@ std::string added_template(NifFile& nif) {
 //   pre=dupnames : nodes X, A below the root and a second X below A are added (two nodes of one name)
 //   pre=unnamed  : the same with two unnamed nodes
 //   pre=collide  : an existing node is renamed to the name of an earlier node that hangs elsewhere
+//   pre=dupbone  : the second bone node of shape number [shapeK] is renamed to the first bone's name
 //   pre=detached : the last bone of shape number [shapeK], when its node has no node below it, is
 //                  taken out of its parent's childRefs: a skin bone attached to nothing
 int load_variant(NifFile& nif, const std::string& name, const std::string& pre, long shapeK = 0) {
 	int rc = load_sample(nif, name);
-	if (rc != 0 || (pre != "share" && pre != "ctrl" && pre != "cycle" && pre != "dupnames" && pre != "unnamed" && pre != "collide" && pre != "detached"))
+	if (rc != 0 || (pre != "share" && pre != "ctrl" && pre != "cycle" && pre != "dupnames" && pre != "unnamed" && pre != "collide" && pre != "detached" && pre != "dupbone"))
 		return rc;
 	NifSaveOptions so0;
 	so0.optimize = false;
 	so0.sortBlocks = false;
-	if (pre == "dupnames" || pre == "unnamed" || pre == "collide" || pre == "detached") {
+	if (pre == "dupnames" || pre == "unnamed" || pre == "collide" || pre == "detached" || pre == "dupbone") {
 		auto root = nif.GetRootNode();
 		if (!root)
 			return rc;
@@ -773,6 +797,21 @@ int load_variant(NifFile& nif, const std::string& name, const std::string& pre, 
 						done = true;
 					}
 				}
+		}
+		else if (pre == "dupbone") {
+			// the second bone node of shape number [shapeK] takes the first bone's name: the bone list names one name twice
+			auto shapes = nif.GetShapes();
+			if (shapes.empty())
+				return rc;
+			NiShape* sh = shapes[static_cast<size_t>(shapeK) % shapes.size()];
+			std::vector<int> ids;
+			nif.GetShapeBoneIDList(sh, ids);
+			if (ids.size() >= 2 && ids[0] >= 0 && ids[1] >= 0 && ids[0] != ids[1]) {
+				auto b0 = nif.hdr.GetBlock<NiNode>(static_cast<uint32_t>(ids[0]));
+				auto b1 = nif.hdr.GetBlock<NiNode>(static_cast<uint32_t>(ids[1]));
+				if (b0 && b1)
+					b1->name.get() = b0->name.get();
+			}
 		}
 		else {
 			auto shapes = nif.GetShapes();
